@@ -434,3 +434,74 @@ class NumEnv(Env):
             J = np.array(self.jac(), dtype=float)
             self.defs['Ji'] = np.linalg.inv(J).tolist()
         return self.defs['Ji']
+
+
+# ------------------------------------------------------------------------------------------
+# forward-mode derivative oracle (independent of vform._dx_impl)
+class NotDifferentiable(Exception):
+    pass
+
+
+def dual(e, env, k, parametric):
+    """-> (value, derivative) of scalar expression e with respect to the k-th parametric (parametric=True)
+    or physical coordinate, by forward-mode differentiation over the denotation"""
+    vf = env.vf
+    T = type(e)
+    d = env.d
+    if T is vf.ConstExpr:
+        return env.const(e.value), env.const(0.0)
+    if T is vf.NegExpr:
+        v, dv = dual(e.x, env, k, parametric)
+        return -v, -dv
+    if T is vf.ScalarOperExpr:
+        a, da = dual(e.x, env, k, parametric)
+        b, db = dual(e.y, env, k, parametric)
+        if e.oper == '+': return a + b, da + db
+        if e.oper == '-': return a - b, da - db
+        if e.oper == '*': return a * b, da * b + a * db
+        if e.oper == '/':
+            if env.record_denoms: env.denoms.append(b)
+            return a / b, (da * b - a * db) / (b * b)
+    if T is vf.PartialDerivExpr:
+        bf = e.basisfun
+        order = sum(e.D)
+        key = 'bf_%s_%s_%s' % (bf.name, bf.component, (env.bf_subst or {}).get(bf.name))
+        pj = lambda D: env.bfun_para(bf, D)
+        return _leaf_dual(env, key, pj, e.D, order, bool(e.physical), k, parametric)
+    if T is vf.VarRefExpr:
+        var = e.var
+        if var.expr is not None:
+            u = e.get_underlying_expr()
+            return dual(u, env, k, parametric)
+        if isinstance(var.src, vf.Parameter):
+            return env.param(var.src, e.I), env.const(0.0)
+        if isinstance(var.src, vf.InputField):
+            inp = var.src
+            if inp.physical or var.deriv != 0:
+                raise NotDifferentiable('physical / derived input var')
+            order = sum(e.D)
+            key = 'in_%s_%s' % (inp.name, '_'.join(map(str, e.I)))
+            pj = lambda D: env.input_atom(inp, e.I, D)
+            return _leaf_dual(env, key, pj, e.D, order, order > 0 and not e.parametric, k, parametric)
+    raise NotDifferentiable(T.__name__)
+
+
+def _leaf_dual(env, key, pj, D, order, leaf_physical, k, parametric):
+    d = env.d
+    if parametric:
+        if order > 0 and leaf_physical:
+            raise NotDifferentiable('parametric derivative of physical derivative')
+        Dn = list(D); Dn[k] += 1
+        return pj(tuple(D)), pj(tuple(Dn))
+    # physical direction k
+    if order > 0 and not leaf_physical:
+        raise NotDifferentiable('physical derivative of parametric derivative')
+    if env.V.spacetime:
+        raise NotDifferentiable('space-time')
+    g, h = env.physical_jets(key, pj)
+    if order == 0:
+        return pj(tuple(D)), g[k]
+    if order == 1:
+        m = D_to_indices(D)[0]
+        return g[m], h[m][k]
+    raise NotDifferentiable('third derivative')
